@@ -789,11 +789,11 @@ pub fn corpus(level2: bool, quick: bool) -> Vec<(ProjectRef, usize)> {
     let mut local: Vec<String> = std::fs::read_dir(&wl).map(|r| r.filter_map(|e| e.ok()).filter(|e| e.path().is_dir()).map(|e| e.file_name().to_string_lossy().to_string()).collect()).unwrap_or_default();
     local.sort();
     // (project, weight = runs per batch)
-    v.push((ProjectRef { name: "repo:examples".into(), root: repo.join("examples"), starknet: false }, if level2 { 4 } else { 10 }));
+    v.push((ProjectRef { name: "repo:examples".into(), root: repo.join("examples"), starknet: false }, if level2 { 4 } else { 12 }));
     for n in local {
         let root = wl.join(&n);
         let starknet = crate::project::Project::load_dir(&root, &n).starknet;
-        v.push((ProjectRef { name: n, root, starknet }, if level2 { 6 } else { 8 }));
+        v.push((ProjectRef { name: n, root, starknet }, if level2 { 8 } else { 16 }));
     }
     if !level2 {
         v.push((ProjectRef { name: "repo:bug_samples".into(), root: repo.join("tests/bug_samples"), starknet: true }, if quick { 3 } else { 4 }));
